@@ -211,10 +211,14 @@ class MultipartDecoder:
 
         elif self.state == State.DATA_START:
             data, del_index, more_data = self._parse_data(self.buffer, start=True)
-            del self.buffer[:del_index]
-            event = Data(data=data, more_data=more_data)
-            if more_data:
-                self.state = State.DATA
+
+            # Nothing is consumed while the line break that starts the body
+            # could also be the start of the boundary that ends an empty body.
+            if del_index > 0:
+                del self.buffer[:del_index]
+                event = Data(data=data, more_data=more_data)
+                if more_data:
+                    self.state = State.DATA
 
         elif self.state == State.DATA:
             data, del_index, more_data = self._parse_data(self.buffer, start=False)
@@ -261,7 +265,7 @@ class MultipartDecoder:
             # with a line break, return the data up to the first line
             # break that is close enough to the end to start one.
             # Anything before that cannot be part of a boundary.
-            tail = max(data_start, len(data) - len(b"\r\n" + boundary) + 1)
+            tail = max(0, len(data) - len(b"\r\n" + boundary) + 1)
             line_break = LINE_BREAK_RE.search(data, tail)
             data_end = del_index = (
                 len(data) if line_break is None else line_break.start()
@@ -277,8 +281,13 @@ class MultipartDecoder:
                 data_end = match.start()
                 del_index = match.end()
             else:
-                data_end = del_index = self.last_newline(data[data_start:]) + data_start
+                data_end = del_index = self.last_newline(data)
             more_data = match is None
+
+        if more_data and data_end < data_start:
+            # The line break that starts the body may belong to a
+            # boundary that isn't complete yet, wait for more data.
+            return b"", 0, True
 
         return bytes(data[data_start:data_end]), del_index, more_data
 
